@@ -14,9 +14,11 @@
 (*           judged: no name table, no netlist)                               *)
 (* Every clause is an INVARIANT over the monitor state reached after the      *)
 (* whole history.  `wit` carries the witnesses TLC prints with a violation.  *)
-(* L2Agrees compares every returned name with the L2 model (Namer!L2Get      *)
-(* seeded with the implementation's own reserved set): a difference is       *)
-(* MODEL-DRIFT, never a verdict.                                             *)
+(* L2Agrees / L2AgreesFixed compare every returned name with the two L2      *)
+(* models (Namer!L2Get = as implemented, Namer!L2GetFixed = repaired; both   *)
+(* seeded with the implementation's own reserved set): the harness learns    *)
+(* which design the code follows; following neither is MODEL-DRIFT, never a  *)
+(* verdict.                                                                  *)
 EXTENDS Namer, Json, IOUtils
 
 T            == JsonDeserialize(IOEnv.TRACES)
@@ -33,14 +35,20 @@ WellFormed(c) ==
   /\ \A i \in 1..Len(c.ev) : c.ev[i][1] \in 1..c.n
   /\ (~c.err) => {c.ev[i][1] : i \in 1..Len(c.ev)} = 1..c.n      \* every signal was asked at least once
 
-(* one observed call: the L1 monitor takes the name the real code returned, the L2 model *)
-(* is advanced alongside and compared                                                    *)
-Start(c) == [mon |-> MonInit(c.n), counts |-> <<>>, sfx |-> [s \in 1..c.n |-> -1], drift |-> FALSE]
+(* one observed call: the L1 monitor takes the name the real code returned; both L2     *)
+(* designs (as implemented / repaired, each with the implementation's own reserved set)  *)
+(* are advanced alongside and compared                                                   *)
+Start(c) == [mon |-> MonInit(c.n),
+             counts |-> <<>>, sfx |-> [s \in 1..c.n |-> -1], drift |-> FALSE,
+             countsf |-> <<>>, sfxf |-> [s \in 1..c.n |-> -1], usedf |-> {}, driftf |-> FALSE]
 Call(c, st, e) ==
   LET s  == e[1]
       nm == e[2]
       g  == L2Get(st.counts, st.sfx, ImplReserved, s, c.bases[s])
-  IN [mon |-> MonStep(st.mon, s, nm), counts |-> g.counts, sfx |-> g.sfx, drift |-> (st.drift \/ g.name # nm)]
+      h  == L2GetFixed(st.countsf, st.sfxf, ImplReserved, st.usedf, c.n + 2, s, c.bases[s])
+  IN [mon |-> MonStep(st.mon, s, nm),
+      counts |-> g.counts, sfx |-> g.sfx, drift |-> (st.drift \/ g.name # nm),
+      countsf |-> h.counts, sfxf |-> h.sfx, usedf |-> st.usedf \cup {h.name}, driftf |-> (st.driftf \/ h.name # nm)]
 
 RECURSIVE Consume(_, _, _)
 Consume(c, i, st) == IF i > Len(c.ev) THEN st ELSE Consume(c, i + 1, Call(c, st, c.ev[i]))
@@ -60,5 +68,6 @@ OrderIndependentUniqueness == C.variant # 0 => wit.collide = {}
 Stable      == wit.unstable = {}
 LegalSyntax == wit.syntax = {}
 NotReserved == wit.reserved = {}
-L2Agrees    == ~fin.drift                             \* MODEL-DRIFT detector, informational
+L2Agrees      == ~fin.drift                           \* MODEL-DRIFT detectors, informational:
+L2AgreesFixed == ~fin.driftf                          \* which of the two L2 designs the code follows
 =============================================================================
